@@ -34,7 +34,7 @@ PROPS = {
         "assumptions": ["interface names asked for are arbitrary; the registered-description theorem carries the guard name != \"\" (an interface registered under the empty name is listed but can never be described)"],
     },
     "C11": {
-        "streams": streams(("client", 4000, 120000)),
+        "streams": streams(("client", 4000, 120000, "-tier", "TIER")),
         "rule": "all 16 flag sets x method strings x parameters (absent, JSON values, unencodable) for Send against a recording peer; reply streams of 0-4 frames (valid replies, error frames incl. the four org.varlink.service errors with right/wrong/ill-typed payload, wrong-shape JSON, byte mutations, random bytes, frames > 4 KiB) x segmentations x server death at a random byte offset, receive called frames+2 times; non-trivial = a stream that ends inside a frame",
         "trusted_base": [JSON_TB, "bufio.Reader modelled (lean/Varlink/Frame.lean)", "white-box constructor VerifNewConnection (overlay) wraps a scripted net.Conn exactly as NewConnection wraps a dialled one"],
         "assumptions": [],
